@@ -293,6 +293,8 @@ package leader
 //@   ensures C15.ctx_transient: err != nil && CtxClass(err) ==> !result
 //@   ensures C15.timeout_transient_wrapped: TimeoutClass(err) ==> !result
 //@   ensures C15.config_perm_wrapped: err != nil && !CtxClass(err) && !TimeoutClass(err) && ConfigClass(err) ==> result
+//@   ensures C15+C03.nats_conflicts_permanent: NatsConflict(err) ==> result
+//@   ensures C15.nats_unreachable_transient: NatsTransient(err) ==> !result
 //@   defines result == Permanent(err)
 
 //@ func IsTransientError(err)
@@ -300,6 +302,8 @@ package leader
 //@   flag pure
 //@   ensures C15.nil_is_neither: err == nil ==> !result
 //@   ensures C15.total_exclusive: err != nil ==> (result == !Permanent(err))
+//@   ensures C15.nats_unreachable_transient: NatsTransient(err) ==> result
+//@   ensures C15.nats_conflicts_not_transient: NatsConflict(err) ==> !result
 
 // ===========================================================================
 // retry.go  (C17)
